@@ -746,6 +746,7 @@ func corpusReopenEmpty(o *Out) {
 		o.Case("reopen", "ok "+observe(db).snap(st))
 	}
 	put(0x01, 10)
+	corpusHugeCapacity(o)
 	corpusScripts(o)
 }
 
@@ -889,4 +890,43 @@ func aliasHistory(o *Out, r *rand.Rand, thorough bool) {
 		}
 	}
 	o.Case(fmt.Sprintf("retained n=%d churn=1", len(rets)), fmt.Sprintf("changed=%d", changed))
+}
+
+// corpusHugeCapacity: capacities at the far end of what the configuration can express (the capacity in bytes still fits 64 bits,
+// a multiple of it does not): 2 MB of items, a restart - a store that is all but empty starts with the maximum radius
+func corpusHugeCapacity(o *Out) {
+	// ceil(k * 2^64 / 95e6) for k = 1, 2, 47: the products capacity*95 and capacity*19 wrap to small numbers; and the largest MB
+	for _, capMB := range []uint64{194176253409, 388352506817, 9126283910179, 18446744073709, 970881267037, 1 << 40} {
+		var node enode.ID
+		node[5] = 0x77
+		db, err := pebble.Open("", &pebble.Options{FS: vfs.NewMem()})
+		if err != nil {
+			panic(err)
+		}
+		cfg := storage.PortalStorageConfig{StorageCapacityMB: capMB, NodeId: node, NetworkName: "verif"}
+		st, err := spebble.NewStorage(cfg, db)
+		if err != nil {
+			o.Case(fmt.Sprintf("open cap=%d000000 node=%s", capMB, hex.EncodeToString(node[:])), "err")
+			continue
+		}
+		o.Case(fmt.Sprintf("open cap=%d000000 node=%s", capMB, hex.EncodeToString(node[:])), "ok "+observe(db).snap(st))
+		for i := 0; i < 20; i++ {
+			id := make([]byte, 32)
+			id[0], id[31] = byte(0x10+11*i), byte(i)
+			err := st.Put(nil, id, genBytes(100000, i))
+			res := "ok"
+			if errors.Is(err, storage.ErrInsufficientRadius) {
+				res = "insufficient_radius"
+			} else if err != nil {
+				res = "err"
+			}
+			o.Case(fmt.Sprintf("put id=%s len=%d seed=%d small=1", hex.EncodeToString(id), 100000, i),
+				fmt.Sprintf("%s %s dropped=0 mindropped=-", res, observe(db).snap(st)))
+		}
+		if st2, err := spebble.NewStorage(cfg, db); err != nil {
+			o.Case("reopen", "err")
+		} else {
+			o.Case("reopen", "ok "+observe(db).snap(st2))
+		}
+	}
 }
